@@ -11,7 +11,7 @@ EXPLANATION = ('the index bookkeeping of HDiscretization (rows to assemble, neig
                'and tensor-product prolongations), for HB and THB, symmetric flag on/off, bdspecs None/[]/faces, over enumerated and random refinement '
                'histories. Proved: the THB branch of assemble_matrix returns (T^T A_hb T).tocsr() with T = hs.thb_to_hb(), assembles A_hb with '
                'truncate switched off and restores the flag on every path.')
-ASSUMPTIONS = ['matrix algebra in the THB-branch contract is uninterpreted (congruence); that T^T A T is the THB matrix rests on thb_to_hb (C04/C05 bounded)',
+ASSUMPTIONS = ['matrix algebra in the THB-branch contract is uninterpreted (congruence); that T^T A T is the THB matrix rests on thb_to_hb, which the bounded tier compares with a transform computed from the definition of truncation (knot insertion level by level, dropping the coefficients of the functions of each finer level\'s space) and then replaces by it',
                'the reference uses pyiga\'s own tensor-product assembler (C01/C09) and bspline.prolongation (C05 bounded) as oracles',
                'equality to 1e-10 relative; "quadrature of the finer level" is checked exactly through the level-wise reference, and the I^T A_fine I '
                'form only for polynomial integrands on affine geometries']
